@@ -453,10 +453,13 @@ def run_predform_case(p):
     from entity_query_language import symbolic_mode, let, an, entity, From, and_
     O.reset_registry()
     rng = random.Random(p['seed'])
-    names = ['a', 'b']
+    names = ['a', 'b', None] if p.get('none_values', True) else ['a', 'b']
     mk = [lambda: O.PBase(rng.choice(names), rng.choice([1, 2])), lambda: O.PSub(rng.choice(names), rng.choice([1, 2]), 5),
           lambda: O.POther(rng.choice(names), rng.choice([1, 2]))]
-    n = rng.choice([0, 3, 4, 5]) if p.get('allow_empty') else rng.choice([3, 4, 5])
+    # instances that exist (and are registered) but are NOT in the supplied domain: an explicit domain, even an empty one,
+    # is never replaced by the registry
+    outside = [rng.choice(mk)() for _ in range(3)]
+    n = rng.choice([0, 0, 3, 4, 5]) if p.get('allow_empty') else rng.choice([3, 4, 5])
     dom = [rng.choice(mk)() for _ in range(n)]
     T = rng.choice([O.PBase, O.PSub])
     style = rng.choice(['kw_name', 'pos_name', 'pos_name_size', 'kw_size', 'none', 'let'])
@@ -914,7 +917,7 @@ def run_infer_case(p):
     a_kind = 'var'
     const = rng.choice(CONST_POOL)
     tag = rng.choice(CONST_POOL)
-    T = rng.choice([O.Built, O.Built, O.BuiltB, O.BuiltEmpty])
+    T = rng.choice([O.Built, O.BuiltB, O.BuiltEmpty, O.BuiltEq])
     try:
         with rule_mode():
             x = let(type_=O.Item, domain=d0)
@@ -950,6 +953,15 @@ def run_infer_case(p):
         return dict(info, what='the same instance returned twice', signature_kind='identity')
     if a_kind == 'nested' and len({id(g.a) for g in got}) != len(got):
         return dict(info, what='a nested instance is shared between two results', signature_kind='nested-identity')
+    # evaluating the rule again builds NEW instances, again one per satisfying assignment
+    try:
+        again = list(q.evaluate())
+    except Exception as e:  # noqa
+        return dict(info, exception=repr(e), trace=traceback.format_exc(limit=5), signature_kind='exception-on-re-evaluation')
+    if len(again) != len(got) or {id(g) for g in again} & {id(g) for g in got}:
+        return dict(info, what='re-evaluation did not build one new instance per satisfying assignment',
+                    first=len(got), second=len(again), reused=len({id(g) for g in again} & {id(g) for g in got}),
+                    signature_kind='re-evaluation')
     return None
 
 
